@@ -245,7 +245,7 @@ func H_C03_uint64Limit(k int, pos int) {
 //verif:harness C03 thorough lp=4..5 lb=0..3
 func H_C03_validIffRoundtrip(lp int, lb int) {
 	v := Ver{Major: vU64("major"), Minor: vU64("minor"), Patch: vU64("patch"), PreRelease: vStr("pre", lp), Build: vStr("build", lb)}
-	vAssume(v.Minor < 10 && v.Patch < 100)
+	vAssume(v.Major < 100000 && v.Minor < 10 && v.Patch < 100)
 	valid := v.Valid() == nil
 	text := v.String()
 	back, err := Parse(text)
